@@ -49,7 +49,13 @@ struct Ctx {
     void fail(const char* prop, const char* oracle, const std::string& detail) {
         if (!want(prop)) return;
         for (auto& v : out) if (v.prop == prop && v.oracle == oracle) return;   // one per class per run
-        out.push_back(Violation{prop, oracle, detail});
+        // details quote bytes that came from the wire: keep them printable ASCII (JSON, terminals, replay files)
+        std::string clean; clean.reserve(detail.size());
+        for (unsigned char ch : detail) {
+            if (ch >= 0x20 && ch < 0x7f) clean.push_back((char)ch);
+            else { static const char* hx = "0123456789abcdef"; clean += "\\x"; clean.push_back(hx[ch >> 4]); clean.push_back(hx[ch & 15]); }
+        }
+        out.push_back(Violation{prop, oracle, clean});
     }
 
     int op_of_topic(const std::string& t) const {
